@@ -119,6 +119,134 @@ def common_len(a, b):
     return n
 
 
+
+KINDS = {
+    # kind: (simulator type, model description without "public"/"params")
+    "TB": ("time-based", {"attrs": ["x", "y", "z"]}),
+    "TB_ANY": ("time-based", {"attrs": ["x"], "any_inputs": True}),
+    "EV": ("event-based", {"attrs": ["x", "y", "z"]}),
+    "EV_ANY": ("event-based", {"attrs": ["x"], "any_inputs": True}),
+    "HY": ("hybrid", {"attrs": ["x", "y", "z"], "trigger": ["x"], "non-persistent": ["z"]}),
+    "HY_PLAIN": ("hybrid", {"attrs": ["x", "y", "z"]}),
+    "HY_NT": ("hybrid", {"attrs": ["x", "y", "z"], "non-trigger": ["y", "z"], "persistent": ["x", "y"], "non-persistent": ["z"]}),
+    "HY_ANY": ("hybrid", {"attrs": ["x", "y"], "any_inputs": True}),
+    "HY_ANY_T": ("hybrid", {"attrs": ["x", "y"], "any_inputs": True, "trigger": ["x"]}),
+    "HY_ANY_NT": ("hybrid", {"attrs": ["x", "y"], "any_inputs": True, "non-trigger": ["y"], "non-persistent": ["y"]}),
+}
+
+
+def kind_roles(kind):
+    """(is_output, is_input, is_trigger, is_persistent) as predicates on attribute names, from the simulator type and the model
+    description alone (the documented defaulting rules; independent of parse_attrs and of the Lean model)."""
+    ty, d = KINDS[kind]
+    attrs = set(d["attrs"])
+    any_in = d.get("any_inputs", False)
+    is_in = (lambda a: True) if any_in else (lambda a: a in attrs)
+    if ty == "time-based":
+        is_tr = lambda a: False                               # noqa: E731
+        is_pers = lambda a: a in attrs                        # noqa: E731
+    elif ty == "event-based":
+        is_tr = is_in
+        is_pers = lambda a: False                             # noqa: E731
+    else:
+        if "trigger" in d:
+            is_tr = lambda a: a in d["trigger"]               # noqa: E731
+        elif "non-trigger" in d:
+            is_tr = lambda a: is_in(a) and a not in d["non-trigger"]   # noqa: E731
+        else:
+            is_tr = lambda a: False                           # noqa: E731
+        if "non-persistent" in d:
+            is_pers = lambda a: a in attrs and a not in d["non-persistent"]   # noqa: E731
+        elif "persistent" in d:
+            is_pers = lambda a: a in d["persistent"]          # noqa: E731
+        else:
+            is_pers = lambda a: a in attrs                    # noqa: E731
+    return (lambda a: a in attrs), is_in, is_tr, is_pers
+
+
+def _install_kind_stubs():
+    for kind, (ty, d) in KINDS.items():
+        meta = {"api_version": "3.0", "type": ty, "models": {"M": {"public": True, "params": [], **copy.deepcopy(d)}}}
+        base = sw.make_stub(True, True, meta)
+
+        def create(self, num, model, **kw):                 # fresh entity ids on every call
+            k = getattr(self, "_n", 0)
+            self._n = k + num
+            return [{"eid": f"E{k + i}", "type": model} for i in range(num)]
+        setattr(sw.MOD, "K_" + kind, type("K_" + kind, (base,), {"create": create}))
+
+
+def _c11_model_kinds(vio, rng, tier):
+    """connect() between every ordered pair of ten model kinds (time-based / event-based / hybrid, with and without any_inputs,
+    trigger given directly or as the complement of a non-trigger list, persistence given either way) x source attribute x
+    destination attribute (declared, undeclared) x time_shifted x weak x initial data: ScenarioError exactly when the source
+    attribute is no output, the destination attribute is no input, or a delayed connection into a non-trigger input has no
+    initial data; an accepted pair is registered as a trigger exactly when the destination attribute is a trigger input and
+    as pulled/pushed according to the source attribute's persistence."""
+    n = 0
+    _install_kind_stubs()
+    names = ["x", "y", "z", "q"]
+    params = list(itertools.product(names, names, (0, 1), (False, True), (False, True)))
+    for sk, dk in itertools.product(KINDS, KINDS):
+        cache = rng.random() < 0.5
+        w = mosaik.World({k: {"python": f"verif_stubs:K_{k}"} for k in (sk, dk)}, asyncio_loop=asyncio.new_event_loop(), skip_greetings=True, cache=cache)
+        try:
+            with warnings.catch_warnings():
+                warnings.simplefilter("ignore")
+                with w.group():
+                    try:
+                        sf = w.start(sk, sim_id="S")
+                        df = w.start(dk, sim_id="D")
+                    except Exception as e:  # noqa: BLE001
+                        vio.append({"law": "a valid model description is accepted at start", "raised": f"{type(e).__name__}: {str(e)[:100]}",
+                                    "source_model": KINDS[sk], "dest_model": KINDS[dk]})
+                        continue
+                is_out, _, _, s_pers = kind_roles(sk)
+                _, is_in, is_tr, _ = kind_roles(dk)
+                todo = params if tier != "quick" else rng.sample(params, 14)
+                for (sa, da, ts, weak, init) in todo:
+                    n += 1
+                    se, de = sf.M(), df.M()
+                    kw = {}
+                    if ts:
+                        kw["time_shifted"] = ts
+                    if weak:
+                        kw["weak"] = True
+                    if init:
+                        kw["initial_data"] = {sa: 5}
+                    case = {"source_model": {"type": KINDS[sk][0], **KINDS[sk][1]}, "dest_model": {"type": KINDS[dk][0], **KINDS[dk][1]},
+                            "src_attr": sa, "dest_attr": da, "time_shifted": ts, "weak": weak, "initial_data": init, "cache": cache}
+                    before = snapshot(w)
+                    try:
+                        w.connect(se, de, (sa, da), **kw)
+                        got = "accepted"
+                    except ScenarioError:
+                        got = "ScenarioError"
+                    except Exception as e:  # noqa: BLE001
+                        got = type(e).__name__
+                    want_rej = (not is_out(sa)) or (not is_in(da)) or ((ts or weak) and not is_tr(da) and not init)
+                    if got != ("ScenarioError" if want_rej else "accepted"):
+                        vio.append({"law": "connect raises ScenarioError exactly in the four documented cases (model kinds)", "observed": got, **case})
+                        continue
+                    if want_rej:
+                        if snapshot(w) != before:
+                            vio.append({"law": "a rejected attribute pair leaves no data-flow behind", **case})
+                        continue
+                    S, D = w.sims["S"], w.sims["D"]
+                    trig = any(d is D for (d, _iv) in S.triggers.get((se.eid, sa), []))
+                    if trig != bool(is_tr(da)):
+                        vio.append({"law": "a connection triggers the destination exactly when the destination attribute is a trigger input",
+                                    "registered_as_trigger": trig, **case})
+                    pulled = any(((se.eid, sa), (de.eid, da)) in v for (src, _iv), v in D.pulled_inputs.items() if src is S)
+                    pushed = any(d is D and dp == (de.eid, da) for (d, _iv, dp) in S.output_to_push.get((se.eid, sa), []))
+                    if (pulled, pushed) != ((True, False) if (cache and s_pers(sa)) else (False, True)):
+                        vio.append({"law": "a persistent source attribute is pulled from the cache, anything else is pushed (exactly one of the two)",
+                                    "pulled": pulled, "pushed": pushed, **case})
+        finally:
+            sw.close_world(w)
+    return n
+
+
 def monitor_c11(rng: random.Random, tier: str) -> tuple[list, int]:
     vio = []
     n = 0
@@ -187,6 +315,7 @@ def monitor_c11(rng: random.Random, tier: str) -> tuple[list, int]:
         finally:
             sw.close_world(w)
     n += _c11_initial_data_cases(vio)
+    n += _c11_model_kinds(vio, rng, tier)
     return vio, n
 
 
